@@ -220,3 +220,45 @@ def c16(prop, tier, seed, core):
 
 
 HANDLERS["C16"] = c16
+
+
+def _wire(prop, tier, seed, core, targets, rule):
+    work = _work(core, prop)
+    mult = 1 if tier == "quick" else 10
+    jobs = []
+    n = 0
+    for target, shards, batches, secs in targets:
+        for k in range(shards if tier == "quick" else max(shards, 4)):
+            n += 1
+            out = os.path.join(work, "shard-%02d.json" % n)
+            jobs.append(("%s#%d" % (target, k), [core.binpath("wire"), "--target", target, "--seed", str(_seed(seed, n)), "--batches", str(batches * mult),
+                         "--time-limit", str(secs * (1 if tier == "quick" else 8)), "--out", out], out))
+    res = core.run_shards(prop, jobs, 20 * 8 * 3 + 120)
+    m = core.merge(prop, tier, seed, res, core.known_for(prop), engine="wire")
+    m["rule"] = rule
+    return m
+
+
+def c19(prop, tier, seed, core):
+    return _wire(prop, tier, seed, core, [("jaeger", 3, 80, 16), ("datadog", 3, 60, 16), ("otel", 2, 150, 10)],
+                 "seeded random SpanRecord batches (0-2000 records; ids 0 / 1 / MAX / top bit / random; empty, long, multi-byte, NUL strings; duplicate "
+                 "keys; 0-20 events) are given to the real reporters. Jaeger: datagrams received on a loopback UDP socket are decoded by an independent "
+                 "Thrift compact decoder (message header, Batch, Process, Span, Tag, Log) and compared field by field, no trailing bytes; an "
+                 "independent encoder is cross-checked against the real bytes. Datadog: a loopback HTTP/1.1 listener captures request line, headers "
+                 "and body, an independent msgpack decoder checks the [[span..]] shape and every field (meta as a map, last duplicate wins). "
+                 "OpenTelemetry: a capturing SpanExporter receives SpanData, every field is compared. evaluations = report() calls; each batch is a "
+                 "distinct seeded input.")
+
+
+def c20(prop, tier, seed, core):
+    return _wire(prop, tier, seed, core, [("split", 6, 70, 16)],
+                 "Jaeger reporter, loopback UDP: single spans whose datagram would be 7990..8002 / 8100 / 20000 / 70000 bytes (sizes computed by the "
+                 "harness's own Thrift encoder, which is cross-checked against the real bytes), batches tuned so that k spans encode to 7996..8003 "
+                 "bytes, oversize spans at first / last / adjacent / all / random positions, hundreds of 1-4.5 kB spans (repeated halving), batches "
+                 "of up to 3000 records. Every datagram must be < 8000 bytes and well formed, the decoded spans concatenated in arrival order must "
+                 "equal the batch minus exactly the spans whose own encoding does not fit; an in-order subsequence is re-sent to tell loopback loss "
+                 "from a reporter that skips spans (4 attempts).")
+
+
+HANDLERS["C19"] = c19
+HANDLERS["C20"] = c20
